@@ -24,6 +24,8 @@ pub enum Action {
     Drop(u8, u8),
     Propose(u8, u8),
     ProposeCc(u8, u8),
+    /// one MsgPropose carrying [normal entry, conf change k] stepped at node i
+    ProposeMix(u8, u8),
     ReadIndex(u8),
     Transfer(u8, u8),
     Campaign(u8),
@@ -31,6 +33,9 @@ pub enum Action {
     ReadyAsync(u8),
     /// async: make the first k outstanding readies durable, notify, release their messages
     Persist(u8, u8),
+    /// async, loose order: fsync the first k not yet synced readies and send their persisted
+    /// messages; the notification (Persist) follows later
+    Fsync(u8, u8),
     /// apply-lag mode: apply the next handed-out entry
     ApplyNext(u8),
     /// crash keeping the first `k` unsynced writes
@@ -118,6 +123,12 @@ pub struct NodeCfg {
     pub max_election_tick: usize,
     pub mode: AppMode,
     pub apply_lag: bool,
+    /// async mode only: persisted messages are sent right after fsync, on_persist_ready is
+    /// called later (other inputs may be stepped in between)
+    pub loose_async: bool,
+    /// sync mode: when Ready::must_sync() is false the application does not fsync before
+    /// sending and advancing (the hard-state write stays in the page cache)
+    pub skip_sync_when_allowed: bool,
     /// this node exists from the start (false: created later by Restart — a spare)
     pub boot: bool,
     pub group_id: u64,
@@ -145,6 +156,8 @@ impl NodeCfg {
             max_election_tick: 4,
             mode: AppMode::Sync,
             apply_lag: false,
+            loose_async: false,
+            skip_sync_when_allowed: false,
             boot: true,
             group_id: 0,
         }
@@ -193,6 +206,8 @@ pub struct Scenario {
     pub group_commit: bool,
     /// LEASE: these nodes (leader first) run in lock-step (LockTick / LockDeliver only)
     pub lock_majority: Vec<u8>,
+    /// MEMBER: also offer one MsgPropose carrying [normal, conf change]
+    pub mix_proposals: bool,
     pub note: String,
 }
 
@@ -222,6 +237,7 @@ impl Scenario {
             clone_checks: false,
             group_commit: false,
             lock_majority: vec![],
+            mix_proposals: false,
             note: String::new(),
         }
     }
